@@ -281,6 +281,15 @@ Proof.
     assert (X : vfp_expand_imm 64 i = b).
     { apply (fp_imm8_sound 64 b); [right; right; reflexivity | change (2 ^ 64) with 18446744073709551616; lia | assumption]. }
     rewrite X. reflexivity.
+  - (* SVecListElem *) pose proof (nodup2 _ _ Hnd) as N1.
+    destruct ops as [|[] r]; try discriminate.
+    match type of H with (if ?c then _ else _) = _ => destruct c eqn:E; try discriminate end.
+    match type of H with match ?m with Some _ => _ | None => _ end = _ => destruct m eqn:Ev; inversion H; subst end.
+    cbn [lookup]. rewrite !Z.eqb_refl, N1. reflexivity.
+  - (* SImmAff *) destruct ops as [|[] r]; try discriminate. unfold fits_u in H.
+    destruct (((v - base) mod step =? 0) && ((0 <=? (v - base) / step) && ((v - base) / step <? 2 ^ w))) eqn:E; inversion H; subst. b2p.
+    cbn [lookup]. rewrite Z.eqb_refl.
+    assert (X : base + (v - base) / step * step = v) by (pose proof (Z.div_mod (v - base) step ltac:(lia)); lia). rewrite X. reflexivity.
 Qed.
 
 Lemma nodupb_app : forall l1 l2, nodupb (l1 ++ l2) = true -> nodupb l1 = true /\ nodupb l2 = true.
